@@ -10,7 +10,7 @@ import random
 import subprocess
 import sys
 
-from .. import attach, core, gen
+from .. import attach, core, gen, faults
 from ..attach import Monitor
 from ..core import COL
 from ..shadow import Shadow, bits, longlex_key
@@ -523,6 +523,59 @@ def run_giant(concepts, case, spec):
     COL.nontrivial(sh.key(), 'giant')
 
 
+def _failed_persistence_first(concepts, ctx, lat, rng, work):
+    """Attempts to persist the context / lattice that fail because of the environment (a stream whose
+    device fills up after k characters, a missing directory, /dev/full), that are cut short by an
+    injected exception, or loads of documents that are not there / truncated - before the judged
+    exports, loads and round trips of the same objects.  None of these calls is judged."""
+    C = concepts.Context
+    for _ in range(rng.randint(1, 3)):
+        k = rng.randrange(8)
+        after = rng.choice([0, 1, 7, 30, 90, 250, 700])
+        try:
+            if k == 0:
+                faults.environment(lambda: ctx.tojson(faults.FailingWriter(after), indent=rng.choice([None, 2])))
+            elif k == 1:
+                faults.environment(lambda: ctx.tojson(os.path.join(work, 'no-such-directory', 'c.json')))
+                if os.path.exists('/dev/full'):
+                    faults.environment(lambda: ctx.tojson('/dev/full'))
+            elif k == 2:
+                try:
+                    pickle.dump(rng.choice([ctx, lat, (ctx, lat)]), faults.FailingWriter(after, binary=True),
+                                protocol=rng.randrange(6))
+                except OSError:
+                    COL.count('pickle_dumps_failed_by_a_full_device')
+            elif k == 3:
+                n = rng.choice([1, 2, 4, 7, 12, 20, 35, 60, 100, 170])
+                if faults.interrupted(lambda: ctx.todict(), n, rng.choice([RecursionError, MemoryError, KeyboardInterrupt])) \
+                        is faults.INTERRUPTED:
+                    COL.count('todict_cut_short_then_repeated')
+            elif k == 4:
+                n = rng.choice([1, 3, 6, 10, 18, 30, 55, 90])
+                obj = rng.choice([ctx, lat, (ctx, lat)])
+                faults.interrupted(lambda: pickle.dumps(obj, protocol=rng.randrange(6)), n,
+                                   rng.choice([RecursionError, MemoryError, KeyboardInterrupt]))
+            elif k == 5:
+                faults.environment(lambda: C.fromjson(os.path.join(work, 'no-such-file.json')))
+            elif k == 6:
+                buf = io.StringIO()
+                if call(ctx.tojson, buf) is not RAISED:
+                    text = buf.getvalue()
+                    faults.environment(lambda: C.fromjson(io.StringIO(text[:rng.randrange(1, max(2, len(text) - 1))])),
+                                       (ValueError, KeyError, TypeError))
+                    COL.count('truncated_documents_loaded_first')
+            else:
+                n = rng.choice([1, 2, 4, 8, 15, 25, 40])
+                faults.interrupted(lambda: ctx.tostring('python-literal'), n, rng.choice([RecursionError, MemoryError]))
+        except (core.CaseTimeout, core.CaseTooLarge):
+            raise
+        except BaseException as e:
+            if not isinstance(e, Exception) and not isinstance(e, faults.Injected):
+                raise
+            COL.count('failed_persistence_stage_saw_' + type(e).__name__)
+    COL.count('contexts_with_failed_persistence_attempts_before_the_round_trips')
+
+
 def run_case(concepts, case, spec):
     if case.get('kind') == 'siblings':
         return run_siblings(concepts, case, spec)
@@ -563,6 +616,8 @@ def run_case(concepts, case, spec):
     if lat is RAISED:
         COL.count('lattice_construction_raised')
         return
+    if hash(gen.table_key(case)) % 3 == 0 and not big:
+        _failed_persistence_first(concepts, ctx, lat, rng, work)
     d = call(ctx.todict)
     call(ctx.todict, None)
     if d is RAISED:
